@@ -9,7 +9,7 @@ COQ_CORR = 'corr_C19'
 N_QUICK = 2500
 N_THOROUGH = 12000
 THOROUGH_EXHAUSTIVE = False
-VM_CASES = 39          # the first cases are also evaluated inside Coq (vm_compute); the corpus minus its last entry
+VM_CASES = 52          # the first cases are also evaluated inside Coq (vm_compute); the corpus minus its last entry
 RULE = ('cases = corpus + random rules printed from abstract token lists (literal chunks incl. digits, "-", ".", '
         'non-ASCII; values containing CR (the wildcard marker), LF, NUL, TAB; plain wildcards in the three flavours :n <n> {n}; int/float/re/path filters in bottle and dotted '
         'flavour, named and anonymous; adjacent wildcards, adjacent literals, leading/trailing literals) x paths that '
@@ -37,13 +37,14 @@ TAG_S, TAG_I, TAG_F = 0, 1, 2
 
 
 # --------------------------------------------------------------------------
-# abstract rules.  token = ['L', text] | ['W', name|None, filter|None, arg|None, flavour]
+# abstract rules.  token = ['L', text] | ['W', name|None, filter|None, arg|None, flavour(, rex selector)]
 # --------------------------------------------------------------------------
 
 def print_tok(t, nxt):
     if t[0] == 'L':
         return t[1]
-    _, name, flt, arg, fl = t
+    _, name, flt, arg, fl = t[:5]
+    sel = t[5] if len(t) > 5 else None
     if flt is None:
         if fl == ':':
             return ':' + name
@@ -55,6 +56,8 @@ def print_tok(t, nxt):
             s += ':' + arg
     else:                 # dotted style  <name.filter(args)> / <filter(args)>
         s = (name + '.' if name else '') + flt + '(' + (arg or '') + ')'
+        if sel is not None:
+            s += '[%d]' % sel          # rex group selector
     return op + s + cl
 
 
@@ -120,6 +123,25 @@ def corpus():
         mk([W('a'), L('/'), W('b', fl='{'), L('/'), W('c', 'int')], '/\r/\r\r/7'),
         mk([L('p/'), W('a', 'path'), L('/e/'), W('b'), L('.'), W(None, 're', '[^/]+')], '/p/q\rr/e/\n.\r'),
         mk([W('a'), L('-'), W(None, 'int')], None, [['i', 5]], {'a': ['s', 'x\ry']}),
+        # ---- several rules in one process: Route objects side by side / one router; repeated calls
+        mk_multi('route', [[W('x', 'int')], [W('x', 'float')], [W('x')], [W('x', 're', '[a-z]+')], [W('x', 're', 'a*', 'd<')]],
+                 [[0, '/7'], [1, '/7'], [2, '/7'], [0, '/7'], [3, '/ab'], [4, '/aa'], [1, '/1.5'], [0, None, [], {'x': ['s', '+3']}]],
+                 fresh=True),
+        mk_multi('router', [[L('u/'), W('a')], [L('u/'), W('b')]], [[0, '/u/5'], [1, '/u/5'], [0, '/u/5']]),  # finding
+        mk_multi('router', [[L('p/'), W('x', 'path'), L('/e')], [L('p/'), W('y', 'path'), L('.txt')], [L('p/'), W('x', 'int')]],
+                 [[0, '/p/a/b/e'], [1, '/p/a/b.txt'], [2, '/p/12'], [0, '/p/a/b/e']], fresh=True),
+        mk_multi('route', [[L('a/'), W('x')], [L('a/'), W('x')]], [[0, '/a/1'], [1, '/a/2'], [0, '/a/1']]),
+        # ---- rex selectors and a user-registered filter (implementation only)
+        mk([L('a/'), ['W', 'x', 'rex', '(foo)|(bar)', 'd<', 1], L('baz')], '/a/foobaz'),
+        mk([L('a/'), ['W', 'x', 'rex', '(foo)|(bar)', 'd<', 2], L('baz')], '/a/barbaz'),
+        mk([L('a/'), ['W', None, 'rex', 'fo+', 'd{', None], L('/q')], '/a/foo/q'),
+        mk([L('a/'), ['W', 'x', 'rex', '(foo)|(bar)', 'd<', 1], L('baz')], '/a/barbaz'),
+        mk([W('x', 'up2'), L('/'), W('y', 'up2', fl='d{')], '/abc/q', fresh=True),
+        # ---- alphabets: Unicode digits (\\d and int() take them, the model does not), lone surrogate, '$' vs newline
+        mk([W('x', 'int'), L('/'), W('y', 'float')], '/１２/٣.٥'),
+        mk([W('x'), L('/'), W('y', 're', '[^/]+')], '/\ud800/\udfff²'),
+        mk([L('p/'), W('x', 'path')], '/p/a/b\n'),
+        mk([W('x', 're', '[a-z]+', 'd<')], '/ab\n'),
         # ---- explicit arguments (malformed stream)
         mk([L('a/'), W('x'), L('/b')], None, [], {}),                               # KeyError
         mk([L('a/'), W(None, 'int')], None, [], {}),                                # IndexError
@@ -141,13 +163,18 @@ LITS = ['a', 'ab', 'abc', 'b', 'e', 'x-y', '0', '7', '-', '.5', 'a.b', '.txt', '
 SEPS = ['/', '/', '/', '', '-', '.']
 RE_ARGS = ['[a-z]+', 'a*', '[^/]+', r'\d{2}', 'ab|a', '[a-z]*']
 # values may contain the wildcard marker itself (%0D in a request path is plain text since fix F1) and other controls
-PLAIN_VALS = ['v', 'abc', '', '12', 'a.b', 'é', '-0', 'x y', '0', 'a-b', 'x\ry', '\r', '\r\r', 'a\nb', '\x00', '\t7']
-INT_VALS = ['0', '7', '-7', '007', '-0', '42', '12345678901234567890', '-00', '10']
+PLAIN_VALS = ['v', 'abc', '', '12', 'a.b', 'é', '-0', 'x y', '0', 'a-b', 'x\ry', '\r', '\r\r', 'a\nb', '\x00', '\t7',
+              'b\n', '\ud800', '²', 'ß\u0130', '\U0001f600']
+# (\d and int() accept every Unicode Nd digit; isdigit() also accepts superscripts, which \d does not)
+INT_VALS = ['0', '7', '-7', '007', '-0', '42', '12345678901234567890', '-00', '10', '１２', '٣', '7²']
 FLOAT_VALS = ['1.5', '0.00001', '3', '-0', '-2.50', '12345678901234567890', '0.1', '10.0', '1.0', '123456.789',
               '0.0001', '100000000000000000', '-0.0']
-RE_VALS = {'[a-z]+': ['a', 'abc', 'zz', ''], 'a*': ['', 'a', 'aaa'], '[^/]+': ['a', 'a-b.c', '12', 'x\ry', '\r'],
+REX_ARGS = [('(foo)|(bar)', 1), ('(foo)|(bar)', 2), ('fo+', None), ('(a)|(b)|(c)', 3), ('(x+)y', None)]
+REX_VALS = {('(foo)|(bar)', 1): ['foo', 'bar'], ('(foo)|(bar)', 2): ['bar', 'foo'], ('fo+', None): ['fo', 'foo', 'f'],
+            ('(a)|(b)|(c)', 3): ['c', 'a'], ('(x+)y', None): ['xxy', 'xy']}
+RE_VALS = {'[a-z]+': ['a', 'abc', 'zz', '', 'ab\n'], 'a*': ['', 'a', 'aaa'], '[^/]+': ['a', 'a-b.c', '12', 'x\ry', '\r'],
            r'\d{2}': ['12', '00', '123'], 'ab|a': ['ab', 'a'], '[a-z]*': ['', 'q', 'abc']}
-PATH_VALS = ['a', 'a/b', 'a/b/c.txt', 'e/e', 'x.y/z', 'q\rr/s', '\r/\r']
+PATH_VALS = ['a', 'a/b', 'a/b/c.txt', 'e/e', 'x.y/z', 'q\rr/s', '\r/\r', 'a\n', 'a\nb/c', '\ud800/x']
 
 
 def gen_toks(rng):
@@ -174,6 +201,15 @@ def gen_toks(rng):
             fl = rng.choice(['b<', 'd<', 'b{', 'd{'])
             if rng.random() < 0.25:
                 name = None
+            r = rng.random()
+            if r < 0.04:
+                # rex: group selector filters (implementation only, not in the model)
+                arg, sel = rng.choice(REX_ARGS)
+                toks.append(['W', name, 'rex', arg, rng.choice(['d<', 'd{']), sel])
+                continue
+            if r < 0.07:
+                toks.append(W(name, 'up2', None, fl))      # a filter registered by the user (harness)
+                continue
             toks.append(W(name, flt, arg, fl))
     if rng.random() < 0.15:
         toks.append(L(rng.choice(['/', '/x', 'end'])))
@@ -202,6 +238,10 @@ def tok_value(rng, t):
         return rng.choice(FLOAT_VALS)
     if flt == 're':
         return rng.choice(RE_VALS[t[3]])
+    if flt == 'rex':
+        return rng.choice(REX_VALS[(t[3], t[5])])
+    if flt == 'up2':
+        return rng.choice(['abc', 'q', 'zz', 'aB'])
     return rng.choice(PATH_VALS)
 
 
@@ -228,50 +268,117 @@ def rand_pyval(rng):
     return ['f', rng.choice(['1.5', '1e-05', 'inf', '-0.0', '3.0'])]
 
 
+def gen_args(rng, toks):
+    """explicit arguments for a rule (malformed stream: missing, extra, wrongly typed)"""
+    args, kw = [], {}
+    for t in toks:
+        if t[0] != 'W':
+            continue
+        r = rng.random()
+        if r < 0.12:
+            continue                                    # missing
+        if r < 0.6:
+            flt = t[2]
+            v = tok_value(rng, t)
+            if flt == 'int' and rng.random() < 0.7:
+                try:
+                    val = ['i', int(v)]
+                except ValueError:
+                    val = ['s', v]
+            elif flt == 'float':
+                val = ['f', repr(float(v))]
+            else:
+                val = ['s', v]
+        else:
+            val = rand_pyval(rng)
+            if t[2] == 'float' and val[0] != 'f':
+                val = ['f', '2.5']                      # float() of str/int is not modelled
+            if t[2] == 'int' and val[0] == 'f':
+                val = ['i', 3]                          # int() of a float is not modelled
+        if t[1] is None:
+            args.append(val)
+        else:
+            kw[t[1]] = val
+    if rng.random() < 0.15:
+        args.append(rand_pyval(rng))
+    if rng.random() < 0.15:
+        kw['extra'] = rand_pyval(rng)
+    return args, kw
+
+
+def mk_multi(via, rules, ops, **extra):
+    c = dict(kind='multi', via=via, rules=rules, ops=ops, toks=[], rule='<%d rules>' % len(rules), path=None)
+    c.update(extra)
+    return c
+
+
+def _rename(toks):
+    return [t if t[0] == 'L' or t[1] is None else [t[0], t[1] + 'r'] + list(t[2:]) for t in toks]
+
+
+def _refilter(rng, toks):
+    """the same shape with another filter / filter argument at one wildcard (cache keys, shared masks)"""
+    out = [list(t) for t in toks]
+    ws = [i for i, t in enumerate(out) if t[0] == 'W' and t[2] not in ('rex', 'up2')]
+    if not ws:
+        return out
+    t = out[rng.choice(ws)]
+    if t[2] == 're':
+        t[3] = rng.choice([a for a in RE_ARGS if a != t[3]])
+    elif t[2] == 'int':
+        t[2] = 'float'
+    elif t[2] == 'float':
+        t[2] = 'int'
+    elif t[2] is None and t[4] != ':':
+        t[2], t[4] = 'int', 'b' + t[4]
+    return out
+
+
+def gen_multi(rng):
+    n = rng.choice([2, 2, 3, 4])
+    rules = [gen_toks(rng)]
+    while len(rules) < n:
+        r = rng.random()
+        base = rng.choice(rules)
+        if r < 0.25:
+            rules.append(_rename(base))                  # same pattern, other names
+        elif r < 0.4:
+            rules.append([list(t) for t in base])        # the same rule once more
+        elif r < 0.6:
+            rules.append(_refilter(rng, base))
+        else:
+            rules.append(gen_toks(rng))
+    ops = []
+    for _ in range(rng.randrange(2, 7)):
+        ri = rng.randrange(n)
+        if rng.random() < 0.8:
+            ops.append([ri, '/' + ''.join(tok_value(rng, t) for t in rules[ri])])
+        else:
+            a, k = gen_args(rng, rules[ri])
+            ops.append([ri, None, a, k])
+    if rng.random() < 0.6:
+        ops.append(list(rng.choice(ops)))                # the same call again, after others
+    return mk_multi(rng.choice(['route', 'router']), rules, ops)
+
+
 def gen(rng, n):
     for _ in range(n):
-        toks = gen_toks(rng)
-        if rng.random() < 0.82:
-            p = '/' + ''.join(tok_value(rng, t) for t in toks)
-            if rng.random() < 0.2:
-                p = mutate(rng, p)
-            yield mk(toks, p)
+        if rng.random() < 0.08:
+            c = gen_multi(rng)
         else:
-            # malformed stream: explicit arguments
-            args, kw = [], {}
-            for t in toks:
-                if t[0] != 'W':
-                    continue
-                r = rng.random()
-                if r < 0.12:
-                    continue                                    # missing
-                if r < 0.6:
-                    flt = t[2]
-                    v = tok_value(rng, t)
-                    if flt == 'int' and rng.random() < 0.7:
-                        try:
-                            val = ['i', int(v)]
-                        except ValueError:
-                            val = ['s', v]
-                    elif flt == 'float':
-                        val = ['f', repr(float(v))]
-                    else:
-                        val = ['s', v]
-                else:
-                    val = rand_pyval(rng)
-                    if t[2] == 'float' and val[0] != 'f':
-                        val = ['f', '2.5']                      # float() of str/int is not modelled
-                    if t[2] == 'int' and val[0] == 'f':
-                        val = ['i', 3]                          # int() of a float is not modelled
-                if t[1] is None:
-                    args.append(val)
-                else:
-                    kw[t[1]] = val
-            if rng.random() < 0.15:
-                args.append(rand_pyval(rng))
-            if rng.random() < 0.15:
-                kw['extra'] = rand_pyval(rng)
-            yield mk(toks, None, args, kw)
+            toks = gen_toks(rng)
+            if rng.random() < 0.82:
+                p = '/' + ''.join(tok_value(rng, t) for t in toks)
+                if rng.random() < 0.2:
+                    p = mutate(rng, p)
+                c = mk(toks, p)
+            else:
+                # malformed stream: explicit arguments
+                a, k = gen_args(rng, toks)
+                c = mk(toks, None, a, k)
+        if rng.random() < 0.012:
+            c['fresh'] = True                            # also observed in a fresh interpreter
+        yield c
 
 
 def thorough():
@@ -433,17 +540,110 @@ def run_impl(case):
         import sys
         sys.settrace(_cov_tracer)
         try:
-            return _observe(case)
+            obs = _observe(case)
         finally:
             sys.settrace(None)
-    return _observe(case)
+    else:
+        obs = _observe(case)
+    if case.get('fresh'):
+        obs['fresh_same'] = _fresh_process_observation(case) == _canon(obs)
+    return obs
+
+
+def _canon(x):
+    import json
+    return json.loads(json.dumps(x))
+
+
+def _fresh_process_observation(case):
+    """the same case observed in a new interpreter: nothing another case left in class- or module-level state
+    (FilterFactory._filter_cache, FilterFactory.filters, Route.parser, re's cache) can be seen there"""
+    import json
+    import os
+    import subprocess
+    import sys
+    import ombott
+    repo = os.path.dirname(os.path.dirname(os.path.abspath(ombott.__file__)))
+    tools = os.path.dirname(os.path.dirname(os.path.abspath(__file__)))
+    code = ('import sys, json; sys.path[:0] = [%r, %r]; sys.dont_write_bytecode = True; import props.C19 as m; '
+            'print(json.dumps(m._observe(json.loads(sys.stdin.read()))))' % (repo, tools))
+    c = {k: v for k, v in case.items() if k != 'fresh'}
+    r = subprocess.run([sys.executable, '-c', code], input=json.dumps(c), capture_output=True, text=True,
+                       timeout=60, env=dict(os.environ, PYTHONHASHSEED='0'))
+    if r.returncode != 0:
+        return {'fresh_failed': r.stderr[-300:]}
+    return json.loads(r.stdout)
 
 
 def _observe(case):
+    if case.get('kind') == 'multi':
+        return _observe_multi(case)
+    return _observe_single(case)
+
+
+def _subcases(case):
+    out = []
+    for op in case['ops']:
+        toks = case['rules'][op[0]]
+        if op[1] is not None:
+            out.append(mk(toks, op[1]))
+        else:
+            out.append(mk(toks, None, op[2], op[3]))
+    return out
+
+
+def _observe_multi(case):
+    """several rules in one process: Route objects built side by side (via='route') or one RadiRouter holding
+    all the rules, each under its own name and method (via='router'); then a sequence of url() calls on them,
+    some repeated.  Every call is observed like a single case; values and re-match come from a router that
+    holds only that rule."""
+    from ombott.router.radirouter import Route, RadiRouter
+    _ensure_custom_filter()
+    rules = [print_rule(t) for t in case['rules']]
+    routes = []
+    if case['via'] == 'route':
+        for r in rules:
+            try:
+                routes.append(Route(r))
+            except Exception as e:
+                routes.append(type(e).__name__)
+    else:
+        R = RadiRouter()
+        for i, r in enumerate(rules):
+            try:
+                R.add(r, 'M%d' % i, _handler, name='n%d' % i)
+                routes.append(R['n%d' % i])
+            except Exception as e:
+                routes.append(type(e).__name__)
+    ops = []
+    for op, sub in zip(case['ops'], _subcases(case)):
+        route = routes[op[0]]
+        if isinstance(route, str):
+            ops.append(dict(add_error=route))
+            continue
+        o = _observe_single(sub, route=route)
+        lone = _observe_single(sub)
+        o['lone_same'] = (lone.get('url') == o.get('url'))
+        ops.append(o)
+    return dict(ops=ops)
+
+
+def _ensure_custom_filter():
+    """a user-registered filter (FilterFactory.filters is a public table): two-argument converter that does
+    not return a _RouteFilterExhaust, with its own formatter"""
+    from ombott.router.filter_factory import FilterFactory
+    if 'up2' not in FilterFactory.filters:
+        FilterFactory.filters['up2'] = lambda conf: (r'[a-z]+', lambda m, mo: m.upper(), lambda x: str(x).lower())
+
+
+def _observe_single(case, route=None):
+    _ensure_custom_filter()
     try:
-        R, route = _router(case['rule'])
+        R, own = _router(case['rule'])
     except Exception as e:
         return dict(rule_error=type(e).__name__)
+    if route is None:
+        route = own                      # else: a Route object shared with other calls (kind 'multi')
     obs = {}
     if case.get('path') is not None:
         m = _resolve(R, case['path'])
@@ -470,7 +670,7 @@ def _observe(case):
     return obs
 
 
-def project(obs, case):
+def _project_single(obs, case):
     if 'rule_error' in obs or not _modelled(case):
         return {'skip': 1}
     out = {}
@@ -490,9 +690,13 @@ def _has_kind(case, k):
 
 
 def _modelled(case):
+    if case.get('kind') == 'multi':
+        return True            # decided per call
     """inputs the Gallina model covers (the rest is checked by the oracle on the implementation only)"""
     if '\r' in case['rule']:
         return False               # literal text with a CR is outside the property (lits_ok)
+    if _has_kind(case, 'rex') or _has_kind(case, 'up2'):
+        return False               # selectors / user-registered filters: implementation only
     if _has_kind(case, 'int'):
         texts = [case.get('path') or '']
         texts += [t[1] for t in case.get('args', []) if t[0] == 's']
@@ -575,7 +779,7 @@ def _enc_pyval(t):
     return [TAG_F] + enc_str(_cps(repr(float(x))))
 
 
-def encode(case):
+def _encode_single(case):
     if not _modelled(case):
         return [-1]
     try:
@@ -662,7 +866,7 @@ def _r_url(r):
     return ['err', _EXC_NAME.get(tag, 'unmodelled')]
 
 
-def decode(out, case):
+def _decode_single(out, case):
     if out == [-999]:
         return {'skip': 1}
     r = Reader(out)
@@ -686,7 +890,7 @@ def _expected_text(v):
     return ''.join(chr(c) for c in cps)
 
 
-def oracle(case, obs):
+def _oracle_single(case, obs):
     if 'rule_error' in obs:
         return None          # not a rule (only reachable while shrinking); counted by classify()
     toks = case['toks']
@@ -722,7 +926,8 @@ def oracle(case, obs):
         return 'building the url from matched parameters raised %s' % b[1]
     u = ''.join(chr(c) for c in b[1])
     it = iter(values)
-    want = ''.join(t[1] if t[0] == 'L' else _expected_text(next(it)) for t in toks)
+    want = ''.join(t[1] if t[0] == 'L' else
+                   (_expected_text(next(it)).lower() if t[2] == 'up2' else _expected_text(next(it))) for t in toks)
     if u != want:
         return 'built url %r is not the literals interleaved with the values (%r)' % (u, want)
     if obs.get('rematch') is None:
@@ -734,7 +939,7 @@ def oracle(case, obs):
     return None
 
 
-def nontrivial(case, obs):
+def _nontrivial_single(case, obs):
     toks = case['toks']
     if not (any(t[0] == 'W' for t in toks) and any(t[0] == 'L' for t in toks)):
         return False
@@ -743,13 +948,13 @@ def nontrivial(case, obs):
     return obs.get('url', ['err'])[0] == 'ok'
 
 
-def key(case):
+def _key_single(case):
     if case.get('path') is not None:
         return (case['rule'], case['path'])
     return (case['rule'], repr(case['args']), repr(sorted(case['kw'].items())))
 
 
-def classify(case, obs):
+def _classify_single(case, obs):
     kinds = sorted({(t[2] or 'plain') for t in case['toks'] if t[0] == 'W'}) or ['static']
     if 'rule_error' in obs:
         return 'rule_error'
@@ -765,7 +970,7 @@ def classify(case, obs):
     return 'args/%s/%s' % ('+'.join(kinds), 'built' if b[0] == 'ok' else b[1])
 
 
-def shrink(case):
+def _shrink_single(case):
     toks = case['toks']
     if case.get('path') is not None:
         p = case['path']
@@ -854,11 +1059,163 @@ def pred_float_reformatted_after_regex(case, what, m):
     return bool(b) and b[0] == 'ok' and ''.join(chr(c) for c in b[1]) != case['path'].strip('/')
 
 
+# --------------------------------------------------------------------------
+# dispatch: single cases and sequences of calls (kind 'multi')
+# --------------------------------------------------------------------------
+
+def _is_multi(case):
+    return case.get('kind') == 'multi'
+
+
+def project(obs, case):
+    if _is_multi(case):
+        return {'ops': [{'skip': 1} if 'add_error' in o else _project_single(o, sub)
+                        for o, sub in zip(obs.get('ops', []), _subcases(case))]}
+    return _project_single(obs, case)
+
+
+def encode(case):
+    if not _is_multi(case):
+        return _encode_single(case)
+    obs = _observe(case)
+    out = [-2, len(case['ops'])]
+    for o, sub in zip(obs['ops'], _subcases(case)):
+        e = [-1] if 'add_error' in o else _encode_single(sub)
+        out += [len(e)] + e
+    return out
+
+
+def decode(out, case):
+    if not _is_multi(case):
+        return _decode_single(out, case)
+    r = Reader(out)
+    n = r.int()
+    ops = []
+    for sub in _subcases(case)[:n]:
+        ops.append(_decode_single(r.str(), sub))
+    return {'ops': ops}
+
+
+def oracle(case, obs):
+    if obs.get('fresh_same') is False:
+        return 'the observation differs from the one a fresh process gives (class- or module-level state)'
+    if not _is_multi(case):
+        return _oracle_single(case, obs)
+    seen = {}
+    for i, (op, o, sub) in enumerate(zip(case['ops'], obs['ops'], _subcases(case))):
+        if 'add_error' in o:
+            continue
+        f = _oracle_single(sub, o)
+        if f:
+            return 'call %d on rule %r: %s' % (i, sub['rule'], f)
+        if o.get('lone_same') is False:
+            return 'call %d on rule %r: a Route built alone for that rule answers differently' % (i, sub['rule'])
+        k = repr(op)
+        o2 = {x: y for x, y in o.items()}
+        if k in seen and seen[k] != o2:
+            return 'call %d repeats an earlier call on the same Route but gives another result' % i
+        seen[k] = o2
+    return None
+
+
+def nontrivial(case, obs):
+    if not _is_multi(case):
+        return _nontrivial_single(case, obs)
+    good = [op[0] for op, o, sub in zip(case['ops'], obs['ops'], _subcases(case))
+            if 'add_error' not in o and _nontrivial_single(sub, o)]
+    return len(set(good)) >= 2 or len(good) > len(set(good)) >= 1
+
+
+def key(case):
+    if _is_multi(case):
+        return ('multi', case['via'], repr(case['rules']), repr(case['ops']))
+    return _key_single(case)
+
+
+def classify(case, obs):
+    if not _is_multi(case):
+        return _classify_single(case, obs) + ('/fresh-process-baseline' if case.get('fresh') else '')
+    n_err = sum(1 for o in obs['ops'] if 'add_error' in o)
+    n_ok = sum(1 for o in obs['ops'] if o.get('url', ['err'])[0] == 'ok')
+    return 'multi/%s/%d-rules/%s%s%s' % (case['via'], len(case['rules']),
+                                         'some-built' if n_ok else 'none-built',
+                                         '/add-rejected' if n_err else '',
+                                         '/fresh-process-baseline' if case.get('fresh') else '')
+
+
+def shrink(case):
+    if not _is_multi(case):
+        for c in _shrink_single(case):
+            yield c
+        return
+    for sub in _subcases(case):
+        yield sub                                    # does one call alone fail?
+    ops = case['ops']
+    for i in range(len(ops)):
+        if len(ops) > 1:
+            yield dict(case, ops=ops[:i] + ops[i + 1:])
+    if case.get('fresh'):
+        yield {k: v for k, v in case.items() if k != 'fresh'}
+
+
+def _shape(toks):
+    """the rule without its wildcard names (what RadiRouter identifies a Route by)"""
+    out = []
+    for t in toks:
+        if t[0] == 'L':
+            if out and isinstance(out[-1], str):
+                out[-1] += t[1]
+            else:
+                out.append(t[1])
+        else:
+            out.append(('W', t[2], t[3] if t[2] != 'path' else None, t[5] if len(t) > 5 else None))
+    return out
+
+
+def _names(toks):
+    return [t[1] for t in toks if t[0] == 'W']
+
+
+def pred_shared_pattern_other_names(case, what, m):
+    """one RadiRouter, two rules with the same pattern and filters but different wildcard names: they share
+    one Route object, whose url() knows only the names of the rule registered first"""
+    if not (_is_multi(case) and case['via'] == 'router'):
+        return False
+    rules = case['rules']
+    for op in case['ops']:
+        j = op[0]
+        for i in range(j):
+            if _shape(rules[i]) == _shape(rules[j]) and _names(rules[i]) != _names(rules[j]):
+                return True
+    return False
+
+
+def pred_rex_group_not_whole_match(case, what, m):
+    """a rex wildcard whose value is a capturing group that is not the whole match ((x+)y on 'xy' gives 'x'):
+    the value alone can never be matched by the mask again (rex is outside the property)"""
+    import re
+    vals = _matched_values(case)
+    if vals is None:
+        return False
+    ws = [t for t in case['toks'] if t[0] == 'W']
+    return any(t[2] == 'rex' and isinstance(v, str) and re.fullmatch(t[3], v) is None for t, v in zip(ws, vals))
+
+
+def _any_sub(pred):
+    def f(case, what, m):
+        if _is_multi(case):
+            return any(pred(sub, what, m) for sub in _subcases(case))
+        return pred(case, what, m)
+    return f
+
+
 PREDICATES = {
-    'float_reformatted_after_regex': pred_float_reformatted_after_regex,
-    'float_repr_not_plain': pred_float_repr_not_plain,
-    'regex_matched_empty': pred_regex_matched_empty,
-    'minus_zero_after_number': pred_minus_zero_after_number,
+    'float_reformatted_after_regex': _any_sub(pred_float_reformatted_after_regex),
+    'float_repr_not_plain': _any_sub(pred_float_repr_not_plain),
+    'regex_matched_empty': _any_sub(pred_regex_matched_empty),
+    'minus_zero_after_number': _any_sub(pred_minus_zero_after_number),
+    'shared_pattern_other_names': pred_shared_pattern_other_names,
+    'rex_group_not_whole_match': _any_sub(pred_rex_group_not_whole_match),
 }
 
 MANIFEST = dict(
